@@ -1099,7 +1099,7 @@ func runC01R11(c *eng.Ctx, r *eng.RuleCtx) {
 	}
 	lg := p.GraphOfLit(lit)
 	calls := callsIn(info, lit.Lit.Body, func(o types.Object, _ *ast.CallExpr) bool {
-		return o != nil && (o.Name() == "AddLast" || o.Name() == "AddFirst" || o.Name() == "AddAfter" || o.Name() == "AddBefore")
+		return o != nil && (nameOf(o) == "AddLast" || nameOf(o) == "AddFirst" || nameOf(o) == "AddAfter" || nameOf(o) == "AddBefore")
 	})
 	if len(calls) != 1 || eng.CalleeOf(info, calls[0]) != addLast {
 		r.Bad(f.Key+" appends-with-AddLast", lit.Lit.Pos(), "tasks created for an event are not appended with exactly one (*TaskQueue).AddLast")
@@ -1168,7 +1168,7 @@ func runC01R12(c *eng.Ctx, r *eng.RuleCtx) {
 		}
 		if cl, ok := e.(*ast.CallExpr); ok {
 			o := eng.CalleeOf(info, cl)
-			if o != nil && o.Name() == "Ch" && (o == chI || o == chS || eng.IsMethod(o, full(pkgKem), "kubeEventsManager", "Ch") || eng.IsMethod(o, full(pkgSched), "scheduleManager", "Ch")) {
+			if o != nil && nameOf(o) == "Ch" && (o == chI || o == chS || eng.IsMethod(o, full(pkgKem), "kubeEventsManager", "Ch") || eng.IsMethod(o, full(pkgSched), "scheduleManager", "Ch")) {
 				return true
 			}
 		}
